@@ -433,6 +433,39 @@ func stDesc(c *stCase) Verdict {
 		stBad("desc case without 13 percentiles")
 	}
 	perms := stPerms(c.Xs)
+	// values with full mantissas (x*0.37+7.3, not exactly representable): the clauses that hold for
+	// ANY sample are checked strictly there - percentiles monotone in p, inside [min, max], and
+	// exactly the repeated value where both neighbouring order statistics are equal
+	for pi, perm := range perms {
+		if pi > 2 {
+			break
+		}
+		X := make([]float64, len(perm))
+		for i, e := range perm {
+			X[i] = float64(e)*0.37 + 7.3
+		}
+		for _, sorted := range []bool{false, true} {
+			if sorted && pi != 0 {
+				continue
+			}
+			srt := stCopy(X)
+			sort.Float64s(srt)
+			lo, hi := srt[0], srt[len(srt)-1]
+			conc := fmt.Sprintf("Sample{Xs:%v, Sorted:%v}", X, sorted)
+			prev := math.Inf(-1)
+			for j := 0; j <= 96; j++ {
+				p := float64(j) / 96
+				g := stats.Sample{Xs: stCopy(X), Sorted: sorted}.Percentile(p)
+				if math.IsNaN(g) || g < prev {
+					return *stFail("percentile-not-monotone/inexact", conc, prev, g, "Percentile(%d/96)=%v < Percentile(%d/96)=%v", j, g, j-1, prev)
+				}
+				if g < lo || g > hi {
+					return *stFail("percentile-outside-bounds/inexact", conc, []float64{lo, hi}, g, "Percentile(%d/96)=%v outside [%v, %v]", j, g, lo, hi)
+				}
+				prev = g
+			}
+		}
+	}
 	for _, xf := range xfs {
 		for pi, perm := range perms {
 			if v := stDescOne(c, xf, perm, false); v != nil {
@@ -706,7 +739,9 @@ func stAux(c *stCase) Verdict {
 		}
 		d := stats.TDist{V: v}
 		conc := fmt.Sprintf("TDist{V:%v}", v)
-		grid := []float64{0, 1e-9, 1e-6, 1e-3, 0.01, 0.1, 0.25, 0.5, 0.75, 1, 1.5, 2, 3, 4, 6, 10, 30, 100, 1e3, 1e6}
+		// "for all arguments x over the real line": up to the largest float and the infinities
+		grid := []float64{0, 1e-300, 1e-9, 1e-6, 1e-3, 0.01, 0.1, 0.25, 0.5, 0.75, 1, 1.5, 2, 3, 4, 6, 10, 30, 100, 1e3, 1e6,
+			1e12, 1e50, 1e100, 1e154, 2e154, 1e155, 1e200, 1e300, math.MaxFloat64, math.Inf(1)}
 		for i := 0; i < 6; i++ {
 			grid = append(grid, stLogUniform(rng, 1e-4, 1e3))
 		}
